@@ -190,6 +190,9 @@ def build(cfg, src):
     for i in range(k):
         if version == "TLS13" and ticket_at == i:
             items.append(Item(True, conn.record(True, 0x16, T.hs(4, src.bytes("ticket", 3))), kind="enc-NewSessionTicket"))
+        if cfg.get("alert_at") == i:
+            # a warning-level alert (close_notify) from the client, protected like any other record once keys are active
+            items.append(Item(False, conn.record(False, 0x15, b"\x01\x00"), kind="alert"))
         from_server = src.flag("dir%d" % i) if cfg.get("sym_dirs", True) else bool(cfg["dirs"][i])
         n = lens[i] if lens else src.choice("len%d" % i, list(range(cfg.get("min_len", 0), cfg.get("max_len", 2) + 1)))
         pt = src.bytes("app%d" % i, n)
